@@ -39,6 +39,7 @@ class VisorTarInfo(tarfile.TarInfo):
         if self.is_visor and self.offset_data:
             # Don't advance the offset with the filesize
             tarfile.offset = tarfile.fileobj.tell()
+            self._offset_next_header = tarfile.offset
 
             # Patch the TarInfo object with saved global
             # header information.
@@ -47,6 +48,17 @@ class VisorTarInfo(tarfile.TarInfo):
             return self
 
         return super()._proc_member(tarfile)
+
+    def _proc_pax(self, tarfile: tarfile.TarFile) -> VisorTarInfo | tarfile.TarInfo:
+        member = super()._proc_pax(tarfile)
+
+        # A pax header with a size record makes tarfile look for the next header behind the data of the member,
+        # but the data of a visor member is not behind its header (and its offset can point anywhere, also backwards)
+        offset_next_header = getattr(member, "_offset_next_header", None)
+        if offset_next_header is not None:
+            tarfile.offset = offset_next_header
+
+        return member
 
 
 def VisorTarFile(*args, **kwargs) -> tarfile.TarFile:
